@@ -56,6 +56,13 @@ ASSUMPTIONS = {
         "names file: the head of main()'s Delete arm is checked to call the name-list reader (both readers replaced by recording functions through name resolution in the harness module); name_from_line is checked on lines of 2-3 bytes over {a, b, space, tab} (BOUNDED); the loop of get_name_list over the lines of the file (File, BufRead) is unverified glue",
         "not decided: names on the command line (they still pass through read_input_fastas: a trailing .fa/.fasta/.fastq(.gz) and a directory prefix are stripped), duplicate names, load/save (C09)",
     ],
+    "C10": KMER_COMMON[3:] + [
+        "PARTIAL: only the representation invariant `variant_count[i] == number of cells of row i that are not '-'` of a saved object is decided, path by path; the property's composition over arbitrary operation sequences is not",
+        "BOUNDED: whole bodies of filter (1 x 2), weed (1 x 2), second half of delete_samples (1 x 3), update_counts (1 x 2) on the real ndarray with HashSet re-bound by name resolution where used; update_counts is a recording stub inside the filter and delete harnesses and checked on its own",
+        "MergeSkaArray::new: only its two cell closures are proved (Verus, lifted fragments); the loop over the hashbrown dictionary and push_row are unverified glue",
+        "the wrapper harnesses (weedwrap, deletewrap, mergewrap) replace the callees by recording stubs: order, number and arguments of calls only",
+        "not decided: row order and k_bits / ska_version as hidden state; (de)serialisation (C09); later commands as functions of the content",
+    ],
     "C12": KMER_COMMON + [
         "not decided: KmerFilter::filter's hashbrown count table (the `== min_count` threshold); the < 0.1% collision statement is probabilistic",
         "the read-filter condition of add_file_kmers (quality rule consulted before, and as a guard of, the counting filter) is checked by Kani on the lifted condition with KmerFilter::filter stubbed, for one read of length k = 5; the needletail loop and the dictionary insertion around it are unverified glue",
